@@ -249,6 +249,11 @@ class Interp:
                 if isinstance(v, property):
                     return v
                 return v
+        if type(obj).__name__ == "SByteList":
+            d = getattr(bytearray, name, None)
+            if d is None:
+                self.py_raise(AttributeError, f"'bytearray' object has no attribute '{name}'")
+            return SBound(d, obj)
         # real object
         try:
             return getattr(obj, name)
